@@ -177,13 +177,15 @@ class Hasher(Pickler):
             # but we keep it in a try as it's faster.
             if any(_holds_frozenset(k) for k, _ in items):
                 raise TypeError("no total order on frozensets")
-            Pickler._batch_setitems(self, iter(sorted(items)), *args)
+            items = sorted(items)
         except TypeError:
             # If keys are unorderable, sorting them using their hash. This is
             # slower but works in any case.
-            Pickler._batch_setitems(
-                self, iter(sorted((hash(k), v) for k, v in items)), *args
-            )
+            items = sorted((hash(k), v) for k, v in items)
+        # Only the ordering of the keys is attempted twice: a TypeError raised
+        # while pickling a value (e.g. an attribute that cannot be pickled)
+        # must propagate instead of being retried on a half-written stream.
+        Pickler._batch_setitems(self, iter(items), *args)
 
     def save_set(self, set_items):
         # forces order of items in Set to ensure consistent hash
